@@ -759,9 +759,9 @@ class Sample(Contract):
             out.append(("the new temperature is the one determine_beta returned", bn == to_real(db[0][3])))
             out.append(("C07 the step search runs with the beta_tolerance given to sample()", to_real(db[0][4]) == g["tol"]))
         lr, lv = list_last(h.f["log_norm_ratio"]), list_last(h.f["log_norm_ratio_var"])
-        out.append(("C08 appended ratio == LER(pre-resampling population, temperature actually used)", to_real(lr) == LER(d, b0, bn)))
+        out.append(("C08 C18 appended ratio == LER(pre-resampling population, temperature actually used)", to_real(lr) == LER(d, b0, bn)))
         out.append(("C08 ratio series grows by exactly that one term", list_sum(h.f["log_norm_ratio"]) == p.ghost["SUM_HEAD"] + LER(d, b0, bn)))
-        out.append(("C08 appended variance == LERV(pre-resampling population, new temperature)", to_real(lv) == LERV(d, b0, bn)))
+        out.append(("C08 C18 appended variance == LERV(pre-resampling population, new temperature)", to_real(lv) == LERV(d, b0, bn)))
         out.append(("C08 variance series grows by exactly that one term", list_sum(h.f["log_norm_ratio_var"]) == p.ghost["SUMV_HEAD"] + LERV(d, b0, bn)))
         out.append(("C18 recorded ess == ESS(IW(pre-resampling population, new temperature))", to_real(list_last(h.f["ess"])) == ESS_IW(d, b0, bn)))
         out.append(("C18 recorded ess_target == ESS(IW(pre-resampling population, 1))", to_real(list_last(h.f["ess_target"])) == ESS_IW(d, b0, z3.RealVal(1))))
